@@ -120,8 +120,8 @@ def _e4(vc, branches):
         # ---- lemma: both documented shapes of a name are valid Kubernetes names (no real code on this branch)
         vc.assume(chars_in(key, ID_CHARS), 'handler ids are over [A-Za-z0-9_./<>-]')
         safe, sfx, keep = vc.str('safe_key'), vc.str('suffix'), vc.int('keep')
-        vc.assume(safe_contract(safe, key), 'make_safe_key contract (E4b.safe_key)')
-        vc.assume(suffix_contract(sfx), 'make_suffix contract (E4b.suffix_shape)')
+        vc.assume(safe_contract(safe, key), 'make_safe_key contract (E4s deductive: same_length/characterwise/ends_keep_their_class; E4b.safe_key bounded)')
+        vc.assume(suffix_contract(sfx), 'make_suffix contract (E4x deductive: suffix_shape; E4b.suffix_shape bounded on the real blake2b/base64)')
         vc.assume(And(keep >= 1, keep <= 63 - SUFFIX_LEN), 'long_hashed: 1 <= keep <= 56')
         shape = vc.nondet(2, 'verbatim | hashed')
         bad_first, bad_last = Not(first_in(key, ALNUM)), Not(last_in(key, ALNUM))
@@ -150,17 +150,17 @@ def _e4(vc, branches):
 
     def make_suffix(arg):
         s = vc.str('suffix')
-        vc.assume(slen(s) == SUFFIX_LEN, 'make_suffix contract: 7 characters (E4b.suffix_shape)')
+        vc.assume(slen(s) == SUFFIX_LEN, 'make_suffix contract: 7 characters (E4x.suffix_shape; E4b.suffix_shape)')
         suffix_calls.append((arg, s))
         return s
 
     def make_safe_key(arg):
         r = vc.str('safe_key')
-        vc.assume(Eq(slen(r), slen(arg)), 'make_safe_key contract: same length (E4b.safe_key)')
+        vc.assume(Eq(slen(r), slen(arg)), 'make_safe_key contract: same length (E4s.same_length; E4b.safe_key)')
         safe_calls.append((arg, r))
         return r
-    vc.used('self.make_suffix', 'E4b')
-    vc.used('self.make_safe_key', 'E4b')
+    vc.used('self.make_suffix', 'E4x')
+    vc.used('self.make_safe_key', 'E4s')
     me = Opaque('storage', prefix=prefix)
     me.make_suffix = make_suffix
     me.make_safe_key = make_safe_key
